@@ -14,7 +14,11 @@ for m in p.modules.values():
     consts += ['%s.%s' % (m.name, k) for k in m.consts]
 for c in p.classes.values():
     consts += ['%s.%s' % (c.qual, k) for k in c.attrs]
-out = {'reference_commit': head, 'functions': sorted(p.functions), 'constants': sorted(set(consts))}
+from sa.resolve import Resolver
+cg = Resolver(p).call_graph()
+sigs = {q: f.params + ['*'] + f.kwonly for q, f in p.functions.items()}
+out = {'reference_commit': head, 'functions': sorted(p.functions), 'constants': sorted(set(consts)),
+       'calls': {k: sorted(v) for k, v in sorted(cg.items()) if v}, 'signatures': sigs}
 dst = os.path.join(os.path.dirname(os.path.dirname(os.path.abspath(__file__))), 'sa', 'tables', 'known_functions.json')
 json.dump(out, open(dst, 'w'), indent=0)
 print(len(out['functions']), 'functions ->', dst)
